@@ -681,7 +681,7 @@ class Gen:
         if kind == "squeeze":
             ones = [i for i, d in enumerate(v.shape) if d == 1]
             if not ones:
-                return None
+                return {"axis": None} if self.coin(0.03) else None  # nothing to squeeze: NumPy returns the array itself (listed C04 finding; rare on purpose)
             if self.coin(0.5):
                 return {"axis": None}
             return {"axis": self.choice(ones) - (nd if self.coin(0.3) else 0)}
